@@ -179,7 +179,10 @@ void bounds(vf::Draw &d, vf::Ctx &ctx) {
   int64_t span = 1000000;
   int i = (int)d.integer(-(int64_t)M, (int64_t)M - 1), j = (int)d.integer(-(int64_t)N, (int64_t)N - 1);
   int which = (int)d.integer(0, 2);
-  int64_t off = d.integer(0, span);
+  // boundary-heavy: exactly one past the end (off=0) must be common, not a 1-in-a-million draw
+  int oc = (int)d.integer(0, 3);
+  int64_t off = oc == 0 ? 0 : oc == 1 ? d.integer(1, 3) : oc == 2 ? d.integer(4, 1000) : d.integer(1001, span);
+  ctx.label(oc == 0 ? "bounds:exactly-one-past" : "bounds:further");
   bool neg = d.boolean();
   int bad_i = neg ? -(int)M - 1 - (int)off : (int)M + (int)off, bad_j = neg ? -(int)N - 1 - (int)off : (int)N + (int)off;
   int qi = which == 1 ? i : bad_i, qj = which == 0 ? j : bad_j;
